@@ -750,6 +750,9 @@ class Scalars:
         if isinstance(v, (Obj, Func, ClassV, LibRef, BoundMethod, Lam, ExcType, Opaque)):
             if isinstance(v, Opaque) and hasattr(v, 'truth'):
                 return v.truth
+            if isinstance(v, Opaque) and hasattr(v, 'len'):
+                n = v.len(self.I)
+                return (n != 0) if not is_sym(n) else (to_z3(n) != 0)
             return True
         raise Unsupported('truthiness of %r' % (type(v),))
 
